@@ -85,8 +85,9 @@ from .ast import (
 )
 
 def quote(s):
-    assert s.replace('_', '').replace('.', '').replace('/', '').isalnum(), \
-        'Only use quote() with names or IDs in Stone.'
+    # s is usually a name or an ID, but it can also be arbitrary text of a bad
+    # spec (an argument name, a doc reference value): never fail on it, the
+    # caller is about to report a spec error.
     return "'%s'" % s
 
 def parse_data_types_from_doc_ref(api, doc, namespace_context, ignore_missing_entries=False):
